@@ -18,7 +18,9 @@ RULE = (
     'series of 2..500 points: coordinate kind float64 / int64 / datetime64 (s, ms, ns), non-uniform ascending steps '
     '(log-uniform, small dyadic, occasionally repeated coordinates), data = piecewise levels + noise + drift ramps, '
     'with a "tie" mode that builds successive slopes exactly equal to the tolerance and its floating-point '
-    'neighbours; min_n_points 1..n (+ n+1), int or Variable; a malformed stream of unsorted coordinates. In-phase: '
+    'neighbours, and an "exact-tie" stream of dyadic series (float / int / datetime coordinates) whose slopes are '
+    'exactly +-atol, 0, atol/2 or 2..3 atol with no rounding anywhere (the oracle decides exact ties: not a split); '
+    'min_n_points 1..n (+ n+1), int or Variable; a malformed stream of unsorted coordinates. In-phase: '
     'frequencies of either sign, 0, multiples / divisors n and n*(1 +- rtol) with exact ties, reference of either sign and 0. '
     'A case is distinct by its full input bit pattern; it is non-trivial when the slope list contains both a slope within '
     'and a slope above the tolerance (plateaus) or both a kept and a dropped element (in-phase).'
@@ -190,6 +192,48 @@ def gen_series(rng, max_n):
         case['x'] = x2
         case['mode'] = 'unsorted'
     return case
+
+
+def gen_exact_tie(rng):
+    """series built from dyadic numbers only, so that every difference and quotient is exact: a large share of the
+    slopes is exactly +-atol (must NOT split a plateau), the rest 0, atol/2 (within) or 2..3 atol (exceeding).
+    Tie steps zig-zag around the current level so that the total-drift guard rarely fires."""
+    kind = rng.choice(['float', 'int', 'datetime'])
+    unit = rng.choice(DT_UNITS)
+    n = rng.randint(2, 40) if rng.random() < 0.9 else rng.randint(41, 300)
+    atol = rng.choice([0.5, 0.25, 1.0, 2.0, 0.125])
+    const_dx = rng.random() < 0.6
+    if kind == 'float':
+        pool = [0.25, 0.5, 1.0, 2.0, 4.0]
+        x0 = rng.choice([0.0, -3.5, 1024.0, 0.75])
+    else:
+        scale = rng.choice([1, 1, 1000])
+        pool = [1 * scale, 2 * scale, 4 * scale, 8 * scale]
+        x0 = rng.choice([0, -5, 1_600_000_000, 17])
+    d0 = rng.choice(pool)
+    x = [x0]
+    y = [rng.choice([0.0, 1.0, -2.0, 14.0, 0.5])]
+    level = y[0]
+    for _ in range(n - 1):
+        dx = d0 if const_dx else rng.choice(pool)
+        u = rng.random()
+        if u < 0.45:
+            sgn = -1.0 if y[-1] > level else (1.0 if y[-1] < level else rng.choice([-1.0, 1.0]))
+            c = sgn
+        elif u < 0.65:
+            c = 0.0
+        elif u < 0.8:
+            c = rng.choice([0.5, -0.5])
+        else:
+            c = rng.choice([2.0, -2.0, 3.0, -3.0])
+        yn = y[-1] + c * atol * float(dx)
+        if abs(c) > 1:
+            level = yn
+        x.append(x[-1] + dx)
+        y.append(yn)
+    minn = rng.choice([1, 1, 2, 2, 3, rng.randint(1, n)])
+    return dict(kind=kind, unit=unit, x=x, y=y, atol=atol, minn=minn, minn_var=rng.random() < 0.2, mode='exact-tie',
+                ydtype='float64')
 
 
 def make_da(c):
@@ -401,6 +445,7 @@ def correspond(ctx):
     n_series = ctx.n(700, 40000)
     max_n = 500
     cases += [gen_series(rng, max_n) for _ in range(n_series)]
+    cases += [gen_exact_tie(rng) for _ in range(ctx.n(150, 5000))]
     # a few fixed shapes: all-within, all-exceeding, two points
     cases.append(dict(kind='float', unit='s', x=[0.0, 1.0], y=[0.0, 0.0], atol=0.5, minn=1, minn_var=False, mode='fixed', ydtype='float64'))
     cases.append(dict(kind='float', unit='s', x=[0.0, 1.0], y=[0.0, 5.0], atol=0.5, minn=1, minn_var=False, mode='fixed', ydtype='float64'))
@@ -486,13 +531,26 @@ def _frac(v):
     return Fraction(v)
 
 
-def _slope_flags(c):
+def _exactly_representable(q):
+    """is the rational q a binary64 number (so that the floating-point difference computing it is exact)?"""
+    try:
+        return Fraction(float(q)) == q
+    except OverflowError:
+        return False
+
+
+def _slope_flags(c, with_ties=False):
     """3-valued: True = certainly exceeding, False = certainly within, None = too close to the tolerance to
-    prescribe (the floating-point slope may fall on either side), from exact rational arithmetic."""
+    prescribe (the floating-point slope may fall on either side), from exact rational arithmetic.
+    An EXACT tie is decided: when dy/dx equals the tolerance exactly as rationals and both differences are binary64
+    numbers, the code's dy and dx are computed without rounding and the correctly rounded quotient is the
+    tolerance itself, so "|slope| > atol" is false without any ambiguity: the slope stays within the tolerance.
+    with_ties=True also returns the list of positions decided that way."""
     x, y = c['x'], c['y']
     atol = Fraction(c['atol'])
     band = Fraction(1, 2**48)
     flags = []
+    ties = []
     for i in range(len(y) - 1):
         dx = Fraction(x[i + 1]) - Fraction(x[i])
         dy = Fraction(y[i + 1]) - Fraction(y[i])
@@ -504,9 +562,12 @@ def _slope_flags(c):
             flags.append(True)
         elif s < atol * (1 - band):
             flags.append(False)
+        elif s == atol and _exactly_representable(dx) and _exactly_representable(dy):
+            flags.append(False)
+            ties.append(i)
         else:
             flags.append(None)
-    return flags
+    return (flags, set(ties)) if with_ties else flags
 
 
 def _locate(bins, xs, ys):
@@ -545,7 +606,7 @@ def check_plateaus_property(c, impl):
         if any((a, b) not in allpts for bx, by in bins for a, b in zip(bx, by)):
             return [('C19:points-changed', 'a bin holds a point (coordinate, value) that is not an input point')]
         return [('C19:not-disjoint-ordered-slices', 'bins are not disjoint contiguous slices of the input in input order')]
-    flags = _slope_flags(c)
+    flags, ties = _slope_flags(c, with_ties=True)
     minn = c['minn']
     for (i, j) in ivs:
         if j - i + 1 < minn:
@@ -553,9 +614,17 @@ def check_plateaus_property(c, impl):
         if any(flags[k] is True for k in range(i, j)):
             probs.append(('C19:exceeding-slope-inside', f'bin [{i},{j}] contains a slope above the tolerance'))
         if i > 0 and flags[i - 1] is False:
-            probs.append(('C19:not-maximal', f'bin [{i},{j}] could be extended to the left (slope {i - 1} is within tolerance)'))
+            if (i - 1) in ties:
+                probs.append(('C19:split-at-exact-tolerance',
+                              f'bin [{i},{j}] begins after slope {i - 1}, which equals the tolerance exactly (not above it)'))
+            else:
+                probs.append(('C19:not-maximal', f'bin [{i},{j}] could be extended to the left (slope {i - 1} is within tolerance)'))
         if j < n - 1 and flags[j] is False:
-            probs.append(('C19:not-maximal', f'bin [{i},{j}] could be extended to the right (slope {j} is within tolerance)'))
+            if j in ties:
+                probs.append(('C19:split-at-exact-tolerance',
+                              f'bin [{i},{j}] ends before slope {j}, which equals the tolerance exactly (not above it)'))
+            else:
+                probs.append(('C19:not-maximal', f'bin [{i},{j}] could be extended to the right (slope {j} is within tolerance)'))
     # none missing: O(n^2) enumeration of all maximal runs with prescribed flags
     have = set(ivs)
     for i in range(n):
@@ -637,7 +706,8 @@ def oracle(ctx, deep):
     n_series = 4000 if deep else ctx.n(500, 20000)
     corpus = [_decode_case(j['case']) for j in _corpus(ctx) if j.get('op') == 'plateaus']
     with np.errstate(all='ignore'):
-        for c in corpus + [gen_series(rng, 500 if not ctx.quick or deep else 200) for _ in range(n_series)]:
+        ties = [gen_exact_tie(rng) for _ in range(1500 if deep else ctx.n(250, 5000))]
+        for c in corpus + ties + [gen_series(rng, 500 if not ctx.quick or deep else 200) for _ in range(n_series)]:
             if c['mode'] == 'unsorted':
                 continue
             impl = run_impl(c)
